@@ -66,7 +66,8 @@ class Session:
         if m.mtype in (METHOD_RETURN, ERROR):
             if f.get(F_REPLY_SERIAL) != op_serial:
                 return "stray-reply:%r" % (m,)
-            meta = "" if f.get(F_SENDER) == BUS and f.get(F_DESTINATION, self.unique.get(idx)) == self.unique.get(idx, f.get(F_DESTINATION)) else "!meta"
+            dest = f.get(F_DESTINATION)
+            meta = "" if f.get(F_SENDER) == BUS and (dest is None or idx not in self.unique or dest == self.unique[idx]) else "!meta"
             if m.mtype == ERROR:
                 n = f.get(F_ERROR_NAME, "")
                 return "err:" + (n[len(ERR_PREFIX):] if n.startswith(ERR_PREFIX) else n) + meta
